@@ -865,9 +865,23 @@ impl Cmp<'_> {
     fn default_value(&mut self, ctx: &str, at: &str, spec: &J, a: &J) {
         let ty_text = spec["type"].as_str().unwrap_or("");
         let lit_text = spec["literal"].as_str().unwrap_or("");
-        let ty = super::parser::parse_type_whole(ty_text).expect("type printed by the reference parses");
-        let lit = parse_const_value(lit_text).expect("literal printed by the reference parses");
-        let want = coerce(self.s, &ty, &lit).expect("generated default is valid for its type");
+        // a problem with the expectation itself is reported as `harness|...` (callers must not
+        // treat it as a difference)
+        let parsed = super::parser::parse_type_whole(ty_text).map_err(|e| e.code()).and_then(|ty| parse_const_value(lit_text).map(|lit| (ty, lit)));
+        let (ty, lit) = match parsed {
+            Ok(x) => x,
+            Err(e) => {
+                self.diffs.push(Diff { kind: "harness|expectation-unparseable".into(), detail: format!("{}: {} / {}", e, ty_text, lit_text) });
+                return;
+            }
+        };
+        let want = match coerce(self.s, &ty, &lit) {
+            Ok(w) => w,
+            Err(e) => {
+                self.diffs.push(Diff { kind: "harness|reference-cannot-coerce".into(), detail: format!("{}: `{}` for type {}", e, lit_text, ty_text) });
+                return;
+            }
+        };
         let J::String(text) = a else {
             self.push(format!("{}|value", ctx), at, format!("expected a literal equivalent to `{}` for type {}, apollo has {}", lit_text, ty_text, short(a)));
             return;
